@@ -152,12 +152,14 @@ theorem breakCyclesWith_rows_sub (fuel : Nat) (ext : BreakExt) (m : Mat) (root :
           simp only at h
           split at h
           · cases h
-          · cases h
           · split at h
             · cases h
-            · rename_i a' ha'
-              cases h
-              exact breakLabels_sub _ _ _ _ _ _ _ ha'
+            · cases h
+            · split at h
+              · cases h
+              · rename_i a' ha'
+                cases h
+                exact breakLabels_sub _ _ _ _ _ _ _ ha'
         · unfold breakUndirected at h
           simp only at h
           split at h
